@@ -230,6 +230,15 @@ func (r *Run) validNames() ([]string, []byte) {
 		}
 		wire = append(wire, 0)
 		names = append(names, strings.Join(labs, "."))
+		if len(names) < 4 && r.Rng.Intn(5) == 0 {
+			// the same name once more (a list may repeat a name; each occurrence is written out in full)
+			start := len(wire) - 1
+			for _, l := range labs {
+				start -= len(l) + 1
+			}
+			wire = append(wire, wire[start:]...)
+			names = append(names, names[len(names)-1])
+		}
 	}
 	return names, wire
 }
